@@ -156,7 +156,7 @@ def _const(node):
 
 CLAUSE_KINDS = {'requires', 'ensures', 'raises', 'raises_nothing', 'modifies', 'decreases', 'invariant',
                 'variant', 'unroll', 'inline', 'fresh_result', 'reads', 'ghost', 'assume_type', 'loop_modifies',
-                'pure', 'ensures_on_raise', 'check', 'use_lemma', 'modifies_global', 'opaque', 'returns'}
+                'pure', 'ensures_on_raise', 'check', 'use_lemma', 'modifies_global', 'opaque', 'returns', 'yields', 'yields_type'}
 
 
 def parse_contract_file(path):
@@ -212,7 +212,7 @@ def parse_contract_file(path):
                 cprops = _props_of_tag(tag, props)
                 extra = {}
                 expr = None
-                if kind in ('requires', 'ensures', 'decreases', 'check', 'ensures_on_raise'):
+                if kind in ('requires', 'ensures', 'decreases', 'check', 'ensures_on_raise', 'yields'):
                     expr = call.args[0]
                     if 'exc' in kws:
                         extra['exc'] = _const(kws['exc'])
@@ -231,7 +231,7 @@ def parse_contract_file(path):
                     if kind == 'loop_modifies':
                         extra['loop'] = _const(call.args[0])
                         extra['exprs'] = list(call.args[1:])
-                elif kind == 'returns':
+                elif kind in ('returns', 'yields_type'):
                     extra['type'] = _const(call.args[0])
                 elif kind == 'opaque':
                     extra['names'] = [_const(a) for a in call.args]
